@@ -7,18 +7,50 @@ use rscel::{BindContext, CelContext, Program};
 use serde_json::json;
 
 /// Arbitrary instruction vectors injected through `Deserialize for Program`; jumps biased to the edges.
-fn random_bytecode(rng: &mut Rng, forward_only: bool) -> (String, serde_json::Value) {
-    let n = 1 + rng.below(8);
+fn random_bytecode(rng: &mut Rng, forward_only: bool) -> (String, serde_json::Value, Option<String>) {
+    let mut must_err: Option<String> = None;
+    let mut class = 9usize;
+    // a third of the vectors start with a condition of a chosen class (true / false / failing / non-bool / nothing on the
+    // stack) followed directly by a jump, so that every arm of the VM's jump instructions meets every edge distance
+    let mut prefix: Vec<(String, serde_json::Value)> = Vec::new();
+    if rng.chance(1, 3) {
+        class = rng.below(5);
+        // a value underneath, so that a run that wrongly ends after the jump returns a value instead of failing on an empty stack
+        if rng.chance(2, 3) && class != 4 {
+            prefix.push(("PUSH i:42".into(), json!({"Push": {"Int": 42}})));
+        }
+        match class {
+            0 => prefix.push(("PUSH b:1".into(), json!({"Push": {"Bool": true}}))),
+            1 => prefix.push(("PUSH b:0".into(), json!({"Push": {"Bool": false}}))),
+            2 => {
+                prefix.push(("PUSH i:1".into(), json!({"Push": {"Int": 1}})));
+                prefix.push(("PUSH i:0".into(), json!({"Push": {"Int": 0}})));
+                prefix.push(("DIV".into(), json!("Div")));
+            }
+            3 => prefix.push(("PUSH i:2".into(), json!({"Push": {"Int": 2}}))),
+            _ => {}
+        }
+    }
+    let n = prefix.len() + 1 + rng.below(8);
     let mut wire = format!("c:{}", n);
     let mut js = Vec::new();
-    for pc in 0..n {
-        let pick = rng.below(16);
+    let np = prefix.len();
+    for (w, j) in prefix.into_iter() {
+        wire.push(' ');
+        wire.push_str(&w);
+        js.push(j);
+    }
+    for pc in np..n {
+        let pick = if np > 0 && pc == np { 9 + rng.below(4) } else { rng.below(17) };
+        let first_after_prefix = class < 9 && pc == np;
         let dist = |rng: &mut Rng| -> i64 {
             let after = pc as i64 + 1;
             let lenr = n as i64 - after;
             let cands: [i64; 9] = [0, 1, lenr, lenr + 1, -after, -after - 1, -1, i32::MAX as i64, i32::MIN as i64];
             let d = cands[rng.below(9)];
-            if forward_only && d < 0 {
+            // backward jumps that stay inside the block can loop forever in the real VM (outside the property);
+            // backward jumps that leave the block are one-shot and are kept for the jump right after the prefix
+            if d < 0 && (forward_only && !first_after_prefix || after + d >= 0) {
                 0
             } else {
                 d
@@ -33,18 +65,35 @@ fn random_bytecode(rng: &mut Rng, forward_only: bool) -> (String, serde_json::Va
             6 => ("ADD".into(), json!("Add")),
             7 => ("TEST".into(), json!("Test")),
             8 => ("NOT".into(), json!("Not")),
-            9 | 10 => { let d = dist(rng); (format!("JMP:{}", d), json!({"Jmp": d})) }
-            11 => { let d = dist(rng); (format!("JT:{}", d), json!({"JmpCond": {"when": "True", "dist": d}})) }
-            12 => { let d = dist(rng); (format!("JF:{}", d), json!({"JmpCond": {"when": "False", "dist": d}})) }
+            9 | 10 | 11 | 12 => {
+                let d = dist(rng);
+                let after = pc as i64 + 1;
+                let out_of_range = after + d < 0 || after + d > n as i64;
+                let (taken, w, j): (Option<bool>, String, serde_json::Value) = match pick {
+                    9 | 10 => (Some(true), format!("JMP:{}", d), json!({"Jmp": d})),
+                    11 => (match class { 0 => Some(true), 1 | 2 => Some(false), _ => None }, format!("JT:{}", d), json!({"JmpCond": {"when": "True", "dist": d}})),
+                    _ => (match class { 0 => Some(false), 1 | 2 => Some(true), _ => None }, format!("JF:{}", d), json!({"JmpCond": {"when": "False", "dist": d}})),
+                };
+                if first_after_prefix {
+                    // the property's statement for the VM: an out-of-range jump that is taken is rejected with an error
+                    if taken == Some(true) && out_of_range && (class < 3 || pick <= 10 && class == 3) {
+                        must_err = Some(format!("jump at pc {} (condition class {}) is taken and leaves the block", pc, ["true", "false", "failing", "int", "empty stack"][class]));
+                    } else if pick > 10 && class >= 3 {
+                        must_err = Some(format!("conditional jump at pc {} on {}", pc, if class == 3 { "a non-boolean" } else { "an empty stack" }));
+                    }
+                }
+                (w, j)
+            }
             13 => { let k = rng.below(3); (format!("MKLIST:{}", k), json!({"MkList": k})) }
             14 => ("OR".into(), json!("Or")),
+            16 => ("DIV".into(), json!("Div")),
             _ => ("LT".into(), json!("Lt")),
         };
         wire.push(' ');
         wire.push_str(&w);
         js.push(j);
     }
-    (wire, json!({"details": {"source": null, "params": []}, "bytecode": {"inner": js}}))
+    (wire, json!({"details": {"source": null, "params": []}, "bytecode": {"inner": js}}), must_err)
 }
 
 pub fn run(opts: &Opts) -> Report {
@@ -73,7 +122,7 @@ pub fn run(opts: &Opts) -> Report {
     for i in 0..m {
         // arbitrary backward jumps can loop forever in the real VM (outside the property): forward-only here,
         // with out-of-range forward and backward-out-of-range distances only in one-shot positions
-        let (wire, js) = random_bytecode(&mut rng, true);
+        let (wire, js, must_err) = random_bytecode(&mut rng, true);
         let obs = crate::report::guarded(|| {
             let p: Program = match serde_json::from_value(js.clone()) {
                 Ok(p) => p,
@@ -88,6 +137,12 @@ pub fn run(opts: &Opts) -> Report {
         rep.bump(&format!("injected:{}", if obs.starts_with("e:") { obs.as_str() } else if obs == "P" { "panic" } else { "value" }));
         if i < 3 {
             rep.sample(json!({"injected_bytecode": wire, "impl": obs}));
+        }
+        if let Some(why) = must_err {
+            rep.bump("injected:oracle-must-fail");
+            if !obs.starts_with("e:") {
+                rep.oracle_fail(&wire, &obs, "E", &format!("the VM must reject this with an error: {}", why));
+            }
         }
         if obs == "P" || obs.starts_with("deser-error") {
             rep.oracle_fail(&wire, &obs, "value or error", "VM panicked (or program not injectable) on arbitrary forward-jumping bytecode");
